@@ -403,8 +403,14 @@ fn write_long_bracket(value: &[u8]) -> Option<String> {
     equals.insert(0, b']');
     equals.push(b']');
 
+    // the closing bracket must not appear earlier than intended, including where the end
+    // of the value runs into the closing bracket itself (a value ending with `]=`
+    // followed by `]=]` would close one character early)
+    let mut content_and_closing_start = value.to_vec();
+    content_and_closing_start.push(b']');
+
     loop {
-        if value.find(&equals).is_none() {
+        if content_and_closing_start.find(&equals).is_none() {
             break;
         } else {
             i += 1;
